@@ -115,7 +115,7 @@ fn c06_recovery_step() {
 /// Through the connection API: earned SRTLA ACK / NAK / global increment on a link whose log
 /// holds the sequence number (or not), both modes.
 #[kani::proof]
-#[kani::unwind(4)]
+#[kani::unwind(6)]
 #[kani::stub(alloc::fmt::format, no_format)]
 fn c06_conn_events_step() {
     let mut c = any_conn(1, SYM_INT);
@@ -186,7 +186,7 @@ fn c06_conn_events_step() {
 }
 
 #[kani::proof]
-#[kani::unwind(4)]
+#[kani::unwind(6)]
 fn c06_resets() {
     // initial value
     let fresh = SrtlaConnection::new_registering(kani::any(), String::new(), std::net::IpAddr::V4(std::net::Ipv4Addr::LOCALHOST), any_time());
